@@ -105,6 +105,26 @@ func TestVerifC02(t *testing.T) {
 	for i := 0; i < n; i++ {
 		r := rng.Fork()
 		c := vsGen(r, (i*6)/n)
+		// an HTTPRoute and a GRPCRoute may carry the same namespace and name: both get a first rule with two weighted backends
+		// of their own (the backend groups of the two must stay apart)
+		if r.Chance(1, 12) {
+			hi, gi := -1, -1
+			for k, rt := range c.Routes {
+				if rt.GRPC && gi < 0 && len(rt.Rules) > 0 {
+					gi = k
+				}
+				if !rt.GRPC && hi < 0 && len(rt.Rules) > 0 {
+					hi = k
+				}
+			}
+			if hi >= 0 && gi >= 0 {
+				c.Routes[gi].NS, c.Routes[gi].Name = c.Routes[hi].NS, c.Routes[hi].Name
+				c.Routes[gi].Parents = append([]vsParentRef(nil), c.Routes[hi].Parents...)
+				c.Routes[hi].Rules[0].Filters, c.Routes[gi].Rules[0].Filters = nil, nil
+				c.Routes[hi].Rules[0].Backends = []vsBackend{{Name: "svc-a", Port: 80, Weight: 1}, {Name: "svc-b", Port: 80, Weight: 3}}
+				c.Routes[gi].Rules[0].Backends = []vsBackend{{Name: "svc-c", Port: 80, Weight: 1}, {Name: "svc-a", Port: 8080, Weight: 1}}
+			}
+		}
 		w := vpRunState(c, false)
 		files := w.Files()
 		reqs := vsGenRequests(r, c, nreq)
